@@ -424,6 +424,89 @@ pub fn c02_pair(alg: Algorithm, old: &[u8], new: &[u8]) -> Result<Out, String> {
     })
 }
 
+/// Arguments that alias: old and new are two views into ONE buffer (every pair of sub-slices),
+/// through the slice entry points, capture_diff with ranges into the same sequence, token
+/// slices sharing one vector, and str views of one string.
+pub fn c02_aliased(alg: Algorithm, buf: &[u8]) -> Result<Out, String> {
+    let l = buf.len();
+    let tb = toks(buf);
+    let text: String = buf.iter().map(|&x| (b'a' + x) as char).collect();
+    let text_lines: String = buf.iter().map(|&x| if x == 0 { "\n".to_string() } else { ((b'a' + x) as char).to_string() }).collect();
+    let mut transitions = 0;
+    let mut fp = Fp::new();
+    let mut any = false;
+    for i in 0..=l {
+        for j in i..=l {
+            for k in 0..=l {
+                for e in k..=l {
+                    let (old, new) = (&buf[i..j], &buf[k..e]);
+                    let what = |entry: &str| format!("{} on two views old=buf[{}..{}] new=buf[{}..{}] of one buffer {:?}", entry, i, j, k, e, buf);
+                    for entry in 0..6 {
+                        let name = ["capture_diff_slices", "capture_diff_slices_deadline(None)", "capture_diff with ranges into the same sequence", "TextDiff::diff_slices", "TextDiff::from_chars", "TextDiff::from_lines"][entry];
+                        let ops = subject(|| match entry {
+                            0 => similar::capture_diff_slices(alg, old, new),
+                            1 => similar::capture_diff_slices_deadline(alg, old, new, None),
+                            2 => similar::capture_diff(alg, buf, i..j, buf, k..e),
+                            3 => TextDiff::configure().algorithm(alg).diff_slices(&tb[i..j], &tb[k..e]).ops().to_vec(),
+                            4 => TextDiff::configure().algorithm(alg).diff_chars(&text[i..j], &text[k..e]).ops().to_vec(),
+                            _ => {
+                                let d = TextDiff::configure().algorithm(alg).diff_lines(&text_lines[i..j], &text_lines[k..e]);
+                                // (line tokens differ from the items: validated on the token slices)
+                                let (o, n) = (d.old_slices(), d.new_slices());
+                                if let Err(e) = validate_ops(d.ops(), o, 0..o.len(), n, 0..n.len(), false).and_then(|_| apply_ops(d.ops(), o, 0..o.len(), n, 0..n.len())) {
+                                    panic!("invalid script: {} [ops: {:?}]", e, d.ops());
+                                }
+                                vec![]
+                            }
+                        })
+                        .map_err(|p| format!("{}: panic: {}", what(name), p))?;
+                        if entry == 5 {
+                            continue;
+                        }
+                        transitions += ops.len() as u64;
+                        if entry == 2 {
+                            c02_clauses(&ops, buf, i..j, buf, k..e, &what(name))?;
+                        } else {
+                            c02_clauses(&ops, old, 0..old.len(), new, 0..new.len(), &what(name))?;
+                            check_ratio(&ops, old, new, &what(name))?;
+                        }
+                        if entry == 0 {
+                            fp.add(ops_fp(&ops));
+                            any |= ops.len() > 1;
+                        }
+                    }
+                }
+            }
+        }
+    }
+    Ok(Out { nontrivial: any, transitions, fp: fp.0 })
+}
+
+/// Zero-sized items: all views of all vectors share one address.
+pub fn c02_zero_sized(alg: Algorithm, n: usize, m: usize) -> Result<u64, String> {
+    let old = vec![(); n];
+    let new = vec![(); m];
+    let mut fp = Fp::new();
+    for entry in 0..3 {
+        let name = ["capture_diff_slices", "capture_diff_slices_deadline(None)", "capture_diff"][entry];
+        let ops = subject(|| match entry {
+            0 => similar::capture_diff_slices(alg, &old, &new),
+            1 => similar::capture_diff_slices_deadline(alg, &old, &new, None),
+            _ => similar::capture_diff(alg, &old, 0..n, &new, 0..m),
+        })
+        .map_err(|p| format!("{} on {} and {} zero-sized items: panic: {}", name, n, m, p))?;
+        validate_ops(&ops, &old, 0..n, &new, 0..m, false)
+            .and_then(|_| apply_ops(&ops, &old, 0..n, &new, 0..m))
+            .map_err(|e| format!("{} on {} and {} zero-sized items: {} [ops: {:?}]", name, n, m, e, ops))?;
+        let r = similar::get_diff_ratio(&ops, n, m);
+        if !(0.0..=1.0).contains(&r) || (r == 1.0) != (n == m) {
+            return Err(format!("{} on {} and {} zero-sized items: ratio {}", name, n, m, r));
+        }
+        fp.add(ops_fp(&ops));
+    }
+    Ok(fp.0)
+}
+
 /// every expiry point of one input: returns (#runs, transitions, fingerprint of all outcomes)
 pub fn c02_deadline_input(
     alg: Algorithm,
@@ -551,6 +634,54 @@ pub fn c02_run(cfg: &RunCfg) -> CheckReport {
     });
     rep.part("deadline", json!({"scopes": dspace.describe(), "expiry": "every probe index k in 0..probes(never-expiring run), plus never"}), ex);
     if !rep.has_violation() {
+        // aliasing: old and new are views into one buffer; zero-sized items
+        let bufs: Vec<Vec<u8>> = match cfg.tier {
+            Tier::Quick => {
+                let mut v = seqs(3, 6);
+                v.extend(seqs(2, 8).into_iter().filter(|s| s.len() > 6));
+                v
+            }
+            Tier::Thorough => {
+                let mut v = seqs(3, 7);
+                v.extend(seqs(2, 10).into_iter().filter(|s| s.len() > 7));
+                v.extend(seqs(4, 6).into_iter().filter(|s| s.contains(&3)));
+                v
+            }
+        };
+        let zmax = 9usize;
+        let nz = (zmax + 1) * (zmax + 1);
+        let ex = explore(cfg, bufs.len() + nz, |shard, acc| {
+            for &alg in ALGS.iter() {
+                if shard < bufs.len() {
+                    let buf = &bufs[shard];
+                    match c02_aliased(alg, buf) {
+                        Ok(o) => {
+                            if shard % 97 == 0 {
+                                acc.sample(json!({"algorithm": alg_name(alg), "aliased_buffer": buf}));
+                            }
+                            acc.ok(o.nontrivial, o.transitions, o.fp);
+                        }
+                        Err(e) => acc.violation(|| (json!({"algorithm": alg_name(alg), "aliased_buffer": buf}), e)),
+                    }
+                } else {
+                    let (n, m) = ((shard - bufs.len()) / (zmax + 1), (shard - bufs.len()) % (zmax + 1));
+                    match c02_zero_sized(alg, n, m) {
+                        Ok(fp) => acc.ok(n > 0 && m > 0, 1, fp ^ ((n * 64 + m) as u64)),
+                        Err(e) => acc.violation(|| (json!({"algorithm": alg_name(alg), "zero_sized": [n, m]}), e)),
+                    }
+                }
+            }
+        });
+        rep.part(
+            "aliased-views",
+            json!({"buffers": match cfg.tier { Tier::Quick => "all sequences over 3 symbols up to length 6 and over 2 symbols of length 7..8", Tier::Thorough => "all sequences over 3 symbols up to length 7, over 2 symbols of length 8..10, over 4 symbols up to length 6" },
+                   "views": "every pair of sub-slices (old=buf[i..j], new=buf[k..l]) of the one buffer",
+                   "entry_points": ["capture_diff_slices", "capture_diff_slices_deadline(None)", "capture_diff (same sequence, two ranges)", "TextDiff::diff_slices (token slices of one vector)", "TextDiff::diff_chars (str views of one string)", "TextDiff::diff_lines (str views of one string)"],
+                   "zero_sized_items": format!("all (n, m) in 0..={} of unit-type vectors", zmax)}),
+            ex,
+        );
+    }
+    if !rep.has_violation() {
         large::run_part(cfg, &mut rep, &ALGS, &|a| if a == Algorithm::Lcs { 300 } else { usize::MAX }, c02_large);
     }
     if !rep.has_violation() {
@@ -656,6 +787,16 @@ pub fn c02_replay(case: &Value) -> Result<String, String> {
     if let Some(r) = large::resolve(case) {
         let (alg, inp) = r?;
         return c02_large(alg, &inp).map(|o| format!("holds; fingerprint {:x}", o.2));
+    }
+    if case.get("aliased_buffer").is_some() {
+        let alg = parse_alg(case)?;
+        let buf = parse_seq(case, "aliased_buffer")?;
+        return c02_aliased(alg, &buf).map(|o| format!("holds; fingerprint {:x}", o.fp));
+    }
+    if let Some(z) = case.get("zero_sized").and_then(|x| x.as_array()) {
+        let alg = parse_alg(case)?;
+        let (n, m) = (z[0].as_u64().unwrap_or(0) as usize, z[1].as_u64().unwrap_or(0) as usize);
+        return c02_zero_sized(alg, n, m).map(|fp| format!("holds; fingerprint {:x}", fp));
     }
     let alg = parse_alg(case)?;
     let old = parse_seq(case, "old")?;
